@@ -99,6 +99,7 @@ class Run:
         self.rounds = 0
         self.midrun = 0
         self.end_reached = False
+        self.storm = [None, 0]
 
     def make_scheduler(self):
         case = self.case
@@ -129,6 +130,16 @@ class Run:
         if self.sched is None:
             return
         kind, name, ovr = op
+        if kind == 'reinit':
+            # a second initialisation is refused by the library (AssertionError): it must change nothing
+            if self.sched.env is None:
+                return
+            try:
+                self.sched.initialize(self.env)
+                self.fail('reinitialised', f'a second initialize() of the running scheduler at {self.env.now!r} was accepted')
+            except AssertionError:
+                self.sh.count('refused_second_initialisations')
+            return
         obj = self.objs[name]
         if kind == 'register':
             got = self.sched.register_object(obj, self.override if ovr else None)
@@ -189,7 +200,8 @@ class Run:
         self.calls = []
         self.k += 1
         self.rounds += 1
-        self.t_next = now + dur
+        # the timetable is folded independently of the library's clock: previous instant + duration
+        self.t_next = self.t_next + dur
 
     def dispatch(self, ev):
         if self.failed:
@@ -202,6 +214,16 @@ class Run:
     def dispatched(self, ev):
         if self.failed or self.sched is None:
             return
+        if action_name(ev.action) == '_update_state' and instrument.action_owner(ev.action) is self.sched:
+            # a timetable of non-zero total length prescribes a bounded number of transitions per instant
+            if self.storm[0] == self.env.now:
+                self.storm[1] += 1
+                if self.storm[1] > 4 * len(self.case['timetable']) + 10:
+                    self.fail('transition_storm', f'{self.storm[1]} transitions of the scheduler at the single instant '
+                              f'{self.env.now!r}')
+                    return
+            else:
+                self.storm = [self.env.now, 1]
         if action_name(ev.action) == '_update_state' and not ev.cancelled \
                 and instrument.action_owner(ev.action) is self.sched:
             self.expect_round(self.env.now, 'transition event')
@@ -243,8 +265,12 @@ class Run:
                     if n == 0 and case.get('late'):
                         # the scheduler is created between two simulate() calls: it starts at once
                         # (start-up round at this instant, nobody registered yet), its timetable counts from now
-                        self.t_next = self.env.now
-                        self.t_start = self.env.now
+                        # (the first run started at 0: its end is known without asking the library)
+                        t0 = d
+                        if self.env.now != t0:
+                            self.fail('transition_time', f'after simulate({d!r}) from 0 the clock reads {self.env.now!r}')
+                        self.t_next = t0
+                        self.t_start = t0
                         self.shadow_at_dispatch = []
                         self.make_scheduler()
                         self.expect_round(self.env.now, 'start-up of a scheduler created between two runs')
@@ -328,12 +354,19 @@ def gen_case(rng, tie):
             t = int(rng.random() * horizon * 8) / 8.0
         if t > horizon:
             continue
-        kind = rng.choice(['register', 'register', 'unregister'])
+        kind = rng.choice(['register', 'register', 'unregister', 'reinit'])
         script.append([t, rng.choice([2, 10, 11, 11.5, 10.5, 12]), [kind, rng.choice(names), rng.random() < 0.4]])
     script.sort(key=lambda e: e[0])
     case = {'engine': 'sched', 'timetable': tt, 'cyclical': cyc, 'horizon': hs, 'objects': names, 'pre': pre,
             'script': script, 'tie': tie, 'tie_seed': rng.randrange(1 << 30)}
-    if len(hs) == 2 and rng.random() < 0.5:
+    if style == 'int' and all(isinstance(d, int) for d, _s in tt) and rng.random() < 0.35:
+        # an integer tick clock above 2**53: the scheduler is created after simulate(BIG); int arithmetic is exact
+        big = rng.choice([2 ** 53, 1_700_000_000_000_000_000, 2 ** 60 + 1])
+        case['horizon'] = [big, int(min(300, total * rng.choice([2, 3, 7])) + 1)]
+        case['script'] = []
+        case['late'] = True
+        case['bigint'] = True
+    elif len(hs) == 2 and rng.random() < 0.5:
         case['late'] = True
     elif rng.random() < 0.25:
         case['spawned'] = rng.choice([1, 2, 3, 4])
